@@ -1,8 +1,66 @@
 # driver configuration and manifest text for C01 (loaded by checks_conf.py)
 CHECK = {'level': 'exploration',
  'exhaustive': False,
- 'rule': 'tbd',
- 'parts': [{'name': 'db', 'pkg': 'db', 'run': '^TestVerif_C01_DB$', 'timeout_q': 600, 'timeout_t': 2400, 'env': {'SG_TEST_BUCKET_POOL_SIZE': '12'}}],
- 'min_evals': 1,
- 'assumptions': []}
-META = {'technique': 'runtime monitoring', 'level_text': 'tbd', 'level_note': 'tbd'}
+ 'rule': 'cache part: every sequence of length <= 5 (thorough 6, and 7 over a 9-symbol sub-alphabet) over a 15-symbol alphabet '
+         '(write a/b/c, remove-from-channel, delete, gap, delayed write of a skipped sequence, late insert, four reads, purge, age prune, evict) '
+         'on a real singleChannelCacheImpl with ChannelCacheMaxLength 1, 2, 3, plus random sequences of length 12 (distinct_nontrivial = distinct '
+         'random operation sequences + 1 for the enumeration); db part: one generated serial history of 22-28 writes (create / update / move '
+         'channels / delete / resurrect / conflicting revision / access() grant / admin grant) over 6 documents x channels A,B,C per case with two '
+         'checkpoints, requesters admin + 4 static users + 2 users with access() grants + 1 user with changing admin grants, up to 5 of 9 '
+         'channel filters per requester (6-7 thorough), 7 cache states per checkpoint (as left by the history, cleared, 2 x tiny cache, small query '
+         'limit, bypass, listener restarted); distinct_nontrivial = histories containing >= 1 access() grant and >= 1 '
+         'conflicting revision; feed part: 4 writers x 8-14 writes racing 3 continuous and 1 long-poll feed under the race detector',
+ 'parts': [{'name': 'cache', 'pkg': 'db', 'run': '^TestVerif_C01_Cache$', 'timeout_q': 600, 'timeout_t': 2400},
+           {'name': 'db', 'pkg': 'db', 'run': '^TestVerif_C01_DB$', 'timeout_q': 600, 'timeout_t': 2400, 'env': {'SG_TEST_BUCKET_POOL_SIZE': '12'}},
+           {'name': 'feed', 'pkg': 'db', 'race': True, 'run': '^TestVerif_C01_Feed$', 'timeout_q': 600, 'timeout_t': 2400}],
+ 'min_evals': 1000,
+ 'min_counters': {'cache.enumerated.states_checked_under_lock': 100000,
+                  'cache.enumerated.reads_checked': 1000000,
+                  'cache.random.reads_checked': 20000,
+                  'db.requests': 100000,
+                  'db.comparisons': 100000,
+                  'db.comparisons.resume-from-entry-token': 5000,
+                  'db.comparisons.integer-since': 20000,
+                  'db.comparisons.paged': 5000,
+                  'db.compound_since_requests': 200,
+                  'db.paged_resume_inside_backfill': 50,
+                  'db.model_checks': 5000,
+                  'db.model_completeness_obligations': 5000,
+                  'db.model_left_view_obligations': 500,
+                  'db.removal_entries_in_reference': 100,
+                  'db.sg_stats.channel_cache_bypass': 100,
+                  'db.sg_stats.channel_cache_misses_backfill_queries': 1000,
+                  'db.writes.conflict': 10,
+                  'feed.entries_delivered': 100,
+                  'feed.rounds_all_feeds_delivered_everything': 3,
+                  'feed.auditor_cache_inspections': 100},
+ 'race_files': ['db/changes.go', 'db/channel_cache.go', 'db/channel_cache_single.go', 'db/change_cache.go', 'db/changes_view.go',
+                'db/change_listener.go', 'channels/log_entry.go'],
+ 'race_state': ['logs', 'c.logs', 'validFrom', 'c.validFrom', 'cachedDocIDs', 'c.cachedDocIDs', 'highCacheSequence', 'c.highCacheSequence',
+                'lateLogs', 'c.lateLogs', 'lastLateSequence', 'nextSequence', 'c.nextSequence', 'pendingLogs', 'c.pendingLogs', 'channelCaches',
+                'keyCounts', 'listener.keyCounts', 'counter', 'listener.counter', 'options.Since', 'lowSequence', 'currentCachedSequence'],
+ 'assumptions': ['cache lengths, the channel-count limit and the query limit are changed inside one database between requests (in-package '
+                 'access to channelCacheImpl.options / maxChannels and CacheOptions.ChannelQueryLimit, followed by changeCache.Clear) instead of '
+                 'comparing separately created databases; each history additionally creates its database with randomly chosen small values so '
+                 'that the live feed path runs with tiny caches',
+                 'the model oracle is applied to requesters whose grants never change (admin, uA, uAB, uStar, uNone); requesters with access() '
+                 'grants and changing admin grants are covered by the structural and differential oracles only',
+                 'component part: the query handler is a model of the channels view (per document its latest channel event, limit over rows of '
+                 'every kind, active_only re-query loop); skipped sequences are modelled as stored-but-not-yet-fed events',
+                 'rosmar answers channel queries through views; the GSI/N1QL query path (active_only filtering inside the query, star-channel '
+                 'index) is not exercised']}
+
+META = {'technique': 'runtime monitoring: exact differential of the real changes feed across cache states / pagings / resume points on generated histories, '
+                     'document-model soundness and completeness oracle, exhaustive small-scope driving of the real per-channel cache against a model '
+                     'query handler with invariants read under the cache lock, bounded-delivery state predicate for continuous feeds under the race '
+                     'detector',
+ 'level_text': 'Generated serial write histories are applied to a real database; at quiescence (change cache at the last written sequence) the same '
+               'logical one-shot request is issued ~10^5-10^6 times under warm, cleared, tiny, query-limited, bypassing and restarted caches, for every '
+               'server-issued resume token, every integer position and limit-1/2/3/5 paging, and must return identical entries; responses of '
+               'static-grant requesters are checked against a document model (current revision present, leavers notified, nothing foreign, '
+               'active_only exact). The real singleChannelCacheImpl is driven through every operation sequence up to length 5 (6/7 thorough) with '
+               'its invariants and every GetChanges(since, limit, active_only) judged against a model. Writers race continuous and long-poll feeds '
+               'under -race with an auditor on the cache locks. Exploration: held on the executions produced.',
+ 'level_note': 'Trusted: the 60-line document model (winner rule, channels from the body), the model of the channels view used at component level, '
+               'rosmar views as the back-fill query. Bounded universe (6 documents, 3 channels, 8 requesters, <= 28 writes). Continuous delivery is '
+               'decided by a state predicate; anything else that does not finish is inconclusive. REST-level rows/last_seq are not covered here.'}
